@@ -1,245 +1,111 @@
-(* C15 — fuel_suffices: on an acyclic class hierarchy the work-lists get_ancestors / get_descendants
-   terminate, and the fuel they need is known exactly.
+(* C15 — fuel_suffices: the work-lists get_ancestors / get_descendants terminate on EVERY class hierarchy,
+   cyclic or not, and the number of steps they take is known exactly.
 
-   The Rust loops have no visited set: a class reached along two inheritance paths is pushed (and
-   popped, and expanded) twice.  The number of pops of a run started at c is therefore the number
-   of PATHS of the hierarchy graph that start at c (the empty path included), not the number of
-   classes reachable from c — [cost].  [walk_exact]: a run does not exhaust its fuel IFF the fuel is
-   at least the sum of the costs of the classes on the stack.  The hierarchy is acyclic when every
-   chain of edges has bounded length ([depth_ok], decidable; implied by a rank that decreases along
-   every edge, [ranked]).  The model (Model.jar_fuel) gives the work-lists exactly that many steps: the
-   largest cost of a class in the two tables, counted to a depth of the number of rows of the table —
-   which is the true path count by pigeonhole ([depth_rows], [jar_fuel_exact]).  [fuel_suffices]:
-   Jar::get_specialized_methods as modelled does not answer Err on any acyclic hierarchy; [fuel_sharp]: one
-   unit less and some work-list fails; every larger fuel gives the same answer ([fuel_irrelevant]). *)
+   Part 1 (the code as it is, after "fix: the hierarchy walks of the bridge detection visit every class once").
+   The output set is the visited set: a class is listed, pushed and popped once.  [walk_exact]: a run started
+   at one class pops exactly 1 + (number of distinct classes it lists) times — not once more, not once less —
+   so one more than the number of entries of the table ([walk_fuel]) is enough on every table ([walk_total]),
+   Jar::get_specialized_methods as modelled never answers Err ([get_specialized_total]), every larger fuel gives
+   the same answer ([fuel_irrelevant]) and the fuel is linear in the jar ([jar_fuel_linear]).
+
+   Part 2 (the loops before the fix, kept as the record of the defect).  Without a visited set a class reached
+   along two inheritance paths was pushed twice: a run popped once per PATH of the hierarchy ([walk_nv_exact],
+   exponential on stacked diamonds) and never finished once a class on a cycle came onto the stack
+   ([walk_nv_diverges]).  Where the old loop did finish it listed the same classes as the new one
+   ([visited_set_conservative]): the fix changes no answer that existed. *)
 From FB Require Import C15.Model C15.Theory C15.Theory2.
-From Coq Require Import Lia PeanoNat.
+From Coq Require Import Lia PeanoNat Relations.Relation_Operators.
 Local Open Scope nat_scope.
 
-(* ---------- depth and cost of a class in a hierarchy table ---------- *)
-(* every chain of edges starting at c has at most d edges (a class without an entry has none) *)
-Fixpoint depth_ok (d : nat) (G : graph) (c : str) {struct d} : bool :=
-  match map_get str_eqb c G with
-  | None => true
-  | Some ys => match d with
-               | O => false
-               | S d' => forallb (depth_ok d' G) ys
-               end
-  end.
+(* ================================================================== *)
+(* Part 1: the work-list with a visited set *)
 
-(* [cost d G c] (Model.v): the number of paths that start at c, cut off below depth d; exact when [depth_ok d G c] *)
-Definition total (d : nat) (G : graph) (stack : list str) : nat := list_sum (map (cost d G) stack).
+(* every class a run can list is an entry of some row *)
+Definition vals (G : graph) : list str := flat_map (fun e => snd e) G.
 
-Lemma depth_ok_eq d G c :
-  depth_ok d G c = match map_get str_eqb c G with
-                   | None => true
-                   | Some ys => match d with O => false | S d' => forallb (depth_ok d' G) ys end
-                   end.
-Proof. destruct d; reflexivity. Qed.
-
-Lemma cost_eq d G c :
-  cost d G c = match map_get str_eqb c G with
-               | None => 1
-               | Some ys => match d with O => 1 | S d' => S (list_sum (map (cost d' G) ys)) end
-               end.
-Proof. destruct d; reflexivity. Qed.
-
-Lemma cost_pos d G c : 1 <= cost d G c.
-Proof. rewrite cost_eq. destruct (map_get str_eqb c G); [destruct d|]; lia. Qed.
-
-(* a larger depth bound changes neither the verdict nor the count *)
-Lemma depth_le G : forall d D c, d <= D -> depth_ok d G c = true ->
-  depth_ok D G c = true /\ cost D G c = cost d G c.
+Lemma map_get_vals G c ys : map_get str_eqb c G = Some ys -> incl ys (vals G).
 Proof.
-  induction d as [|d IH]; intros D c Hle H; rewrite depth_ok_eq in H.
-  - rewrite (depth_ok_eq D), (cost_eq D), (cost_eq 0). destruct (map_get str_eqb c G) as [ys|]; [discriminate|auto].
-  - rewrite (depth_ok_eq D), (cost_eq D), (cost_eq (S d)). destruct (map_get str_eqb c G) as [ys|]; [|auto].
-    destruct D as [|D]; [lia|]. rewrite forallb_forall in H. split.
-    + apply forallb_forall. intros y Hy. apply (IH D y); [lia|auto].
-    + f_equal. f_equal. apply map_ext_in. intros y Hy. apply (IH D y); [lia|auto].
+  intros E x Hx. apply (map_get_Some_In str_eqb str_eqb_dec) in E. unfold vals. apply in_flat_map.
+  exists (c, ys). split; [exact E|exact Hx].
 Qed.
 
-Lemma list_sum_rev l : list_sum (rev l) = list_sum l.
+(* termination: the listed classes are distinct entries of the table, each pop either shortens the stack or
+   lists new ones *)
+Lemma walk_total_gen G : forall fuel stack out, NoDup out -> incl out (vals G) ->
+  length stack + (length (vals G) - length out) <= fuel -> exists r, walk fuel G stack out = Ok r.
 Proof.
-  induction l as [|x l IH]; [reflexivity|]. cbn [rev]. rewrite list_sum_app, IH. simpl. lia.
+  induction fuel as [|f IH]; intros stack out Hn Hi Hf.
+  - destruct stack as [|c q]; [exists out; reflexivity|cbn [length] in Hf; lia].
+  - destruct stack as [|c q]; [exists out; reflexivity|]. cbn [length] in Hf.
+    destruct (map_get str_eqb c G) as [ys|] eqn:E.
+    + rewrite (walk_cons_some _ _ _ _ _ _ E).
+      pose proof (fresh_NoDup ys out Hn) as Hn'.
+      assert (Hi' : incl (out ++ fresh ys out) (vals G)).
+      { apply incl_app; [exact Hi|]. intros x Hx. apply fresh_In in Hx. apply (map_get_vals G c ys E). tauto. }
+      pose proof (NoDup_incl_length Hn' Hi') as Hl. rewrite app_length in Hl.
+      apply IH; [exact Hn'|exact Hi'|]. rewrite !app_length, rev_length. lia.
+    + rewrite (walk_cons_none _ _ _ _ _ E). apply IH; [exact Hn|exact Hi|lia].
 Qed.
 
-(* ---------- the work-list takes exactly [total] steps ---------- *)
-Lemma total_nil d G : total d G [] = 0.
-Proof. reflexivity. Qed.
-Lemma total_cons d G c q : total d G (c :: q) = cost d G c + total d G q.
-Proof. reflexivity. Qed.
-Lemma total_app d G l1 l2 : total d G (l1 ++ l2) = total d G l1 + total d G l2.
-Proof. unfold total. rewrite map_app, list_sum_app. reflexivity. Qed.
-Lemma total_rev d G l : total d G (rev l) = total d G l.
-Proof. unfold total. rewrite map_rev, list_sum_rev. reflexivity. Qed.
-
-Theorem walk_exact G d : forall fuel stack out,
-  (forall c, In c stack -> depth_ok d G c = true) ->
-  ((exists r, walk fuel G stack out = Ok r) <-> total d G stack <= fuel).
+Theorem walk_total G fuel c : walk_fuel G <= fuel -> exists r, walk fuel G [c] [] = Ok r.
 Proof.
-  induction fuel as [|f IH]; intros stack out Hd.
-  - destruct stack as [|c q]; cbn [walk].
-    + rewrite total_nil. split; [lia|eauto].
-    + rewrite total_cons. pose proof (cost_pos d G c). split; [intros (r & Hr); discriminate|lia].
-  - destruct stack as [|c q]; cbn [walk].
-    + rewrite total_nil. split; [lia|eauto].
-    + assert (Hq : forall c', In c' q -> depth_ok d G c' = true) by (intros c' Hc'; apply Hd; right; exact Hc').
-      pose proof (Hd c (or_introl eq_refl)) as Hc. rewrite depth_ok_eq in Hc.
-      rewrite total_cons, (cost_eq d G c).
-      destruct (map_get str_eqb c G) as [ys|] eqn:E.
-      * destruct d as [|d']; [discriminate|]. rewrite forallb_forall in Hc.
-        assert (Hys : forall y, In y ys -> depth_ok (S d') G y = true /\ cost (S d') G y = cost d' G y).
-        { intros y Hy. apply (depth_le G d' (S d') y); [lia|auto]. }
-        rewrite (IH (rev ys ++ q) (out ++ ys)).
-        2:{ intros c' Hc'. apply in_app_iff in Hc'. destruct Hc' as [Hc'|Hc']; [|auto].
-            apply in_rev in Hc'. apply Hys. exact Hc'. }
-        rewrite total_app, total_rev. unfold total at 1.
-        rewrite (map_ext_in (cost (S d') G) (cost d' G) ys) by (intros y Hy; apply Hys; exact Hy).
-        lia.
-      * rewrite (IH q out Hq). lia.
+  intros Hf. apply walk_total_gen; [constructor|intros x []|]. unfold walk_fuel in Hf. fold (vals G) in Hf.
+  cbn [length]. lia.
 Qed.
 
-(* ---------- a whole table ---------- *)
-Definition hier_depth_ok (d : nat) (G : graph) : bool := forallb (fun e => depth_ok d G (fst e)) G.
-
-Lemma hier_depth_all d G : hier_depth_ok d G = true -> forall c, depth_ok d G c = true.
+(* the output only grows, and stays duplicate-free *)
+Lemma walk_prefix G : forall fuel stack out r, walk fuel G stack out = Ok r -> exists t, r = out ++ t.
 Proof.
-  intros H c. destruct (map_get str_eqb c G) as [ys|] eqn:E.
-  - apply (map_get_Some_In str_eqb str_eqb_dec) in E. unfold hier_depth_ok in H. rewrite forallb_forall in H.
-    apply (H (c, ys) E).
-  - rewrite depth_ok_eq, E. reflexivity.
+  induction fuel as [|f IH]; intros stack out r Hw; destruct stack as [|c q].
+  - rewrite walk_nil in Hw. injection Hw as <-. exists []. rewrite app_nil_r. reflexivity.
+  - cbn [walk] in Hw. discriminate.
+  - rewrite walk_nil in Hw. injection Hw as <-. exists []. rewrite app_nil_r. reflexivity.
+  - destruct (map_get str_eqb c G) as [ys|] eqn:E.
+    + rewrite (walk_cons_some _ _ _ _ _ _ E) in Hw. destruct (IH _ _ _ Hw) as [t ->].
+      exists (fresh ys out ++ t). rewrite app_assoc. reflexivity.
+    + rewrite (walk_cons_none _ _ _ _ _ E) in Hw. exact (IH _ _ _ Hw).
 Qed.
 
-Lemma fold_max_ge {A} (f : A -> nat) l x : In x l -> f x <= fold_right (fun e m => Nat.max (f e) m) 1 l.
+Lemma walk_NoDup G : forall fuel stack out r, walk fuel G stack out = Ok r -> NoDup out -> NoDup r.
 Proof.
-  induction l as [|y l IH]; intros Hx; [destruct Hx|]. cbn [fold_right].
-  destruct Hx as [->|Hx]; [lia|]. specialize (IH Hx). lia.
+  induction fuel as [|f IH]; intros stack out r Hw Hn; destruct stack as [|c q].
+  - rewrite walk_nil in Hw. injection Hw as <-. exact Hn.
+  - cbn [walk] in Hw. discriminate.
+  - rewrite walk_nil in Hw. injection Hw as <-. exact Hn.
+  - destruct (map_get str_eqb c G) as [ys|] eqn:E.
+    + rewrite (walk_cons_some _ _ _ _ _ _ E) in Hw. apply (IH _ _ _ Hw). apply fresh_NoDup. exact Hn.
+    + rewrite (walk_cons_none _ _ _ _ _ E) in Hw. exact (IH _ _ _ Hw Hn).
 Qed.
 
-Lemma fold_max_one {A} (f : A -> nat) l : 1 <= fold_right (fun e m => Nat.max (f e) m) 1 l.
-Proof. induction l as [|y l IH]; cbn [fold_right]; lia. Qed.
+(* the exact number of pops of a run that ends with r: the classes on the stack and the classes still to be listed *)
+Definition steps (stack out r : list str) : nat := length stack + (length r - length out).
 
-Lemma cost_le_bound d G c : cost d G c <= graph_bound d G.
+Theorem walk_exact G : forall fuel stack out r, walk fuel G stack out = Ok r ->
+  forall f', walk f' G stack out = if Nat.leb (steps stack out r) f' then Ok r else Err.
 Proof.
-  destruct (map_get str_eqb c G) as [ys|] eqn:E.
-  - apply (map_get_Some_In str_eqb str_eqb_dec) in E.
-    apply (fold_max_ge (fun e => cost d G (fst e)) G (c, ys) E).
-  - rewrite cost_eq, E. apply fold_max_one.
+  induction fuel as [|f IH]; intros stack out r Hw f'; destruct stack as [|c q].
+  - rewrite walk_nil in Hw. injection Hw as <-. rewrite walk_nil. unfold steps. cbn [length]. rewrite Nat.sub_diag. reflexivity.
+  - cbn [walk] in Hw. discriminate.
+  - rewrite walk_nil in Hw. injection Hw as <-. rewrite walk_nil. unfold steps. cbn [length]. rewrite Nat.sub_diag. reflexivity.
+  - destruct (map_get str_eqb c G) as [ys|] eqn:E.
+    + rewrite (walk_cons_some _ _ _ _ _ _ E) in Hw. destruct (walk_prefix _ _ _ _ _ Hw) as [t Ht].
+      pose proof (IH _ _ _ Hw) as IHw.
+      assert (Hs : steps (c :: q) out r = S (steps (rev (fresh ys out) ++ q) (out ++ fresh ys out) r)).
+      { unfold steps. subst r. rewrite !app_length, rev_length. cbn [length]. lia. }
+      rewrite Hs. destruct f' as [|f'']; [reflexivity|].
+      rewrite (walk_cons_some _ _ _ _ _ _ E), IHw. reflexivity.
+    + rewrite (walk_cons_none _ _ _ _ _ E) in Hw. pose proof (IH _ _ _ Hw) as IHw.
+      assert (Hs : steps (c :: q) out r = S (steps q out r)) by (unfold steps; cbn [length]; lia).
+      rewrite Hs. destruct f' as [|f'']; [reflexivity|].
+      rewrite (walk_cons_none _ _ _ _ _ E), IHw. reflexivity.
 Qed.
 
-Definition walks_ok (fuel : nat) (G : graph) : Prop := forall s, exists l, walk fuel G [s] [] = Ok l.
-
-Lemma walks_ok_bound d G fuel : hier_depth_ok d G = true -> graph_bound d G <= fuel -> walks_ok fuel G.
+(* a run started at one class: one pop per distinct class it lists, plus one for the start *)
+Theorem walk_steps G fuel c r : walk fuel G [c] [] = Ok r ->
+  NoDup r /\ forall f', walk f' G [c] [] = if Nat.leb (S (length r)) f' then Ok r else Err.
 Proof.
-  intros Hd Hb s. apply (walk_exact G d fuel [s] []).
-  - intros c _. apply hier_depth_all. exact Hd.
-  - rewrite total_cons, total_nil. pose proof (cost_le_bound d G s). lia.
-Qed.
-
-(* ---------- the depth bound of the model's fuel: the number of rows of the table ---------- *)
-(* a chain: every element has a row, and each next element is listed in the row of the previous one *)
-Fixpoint chain (G : graph) (l : list str) : Prop :=
-  match l with
-  | [] => True
-  | c :: l' => exists ys, map_get str_eqb c G = Some ys /\ match l' with [] => True | y :: _ => In y ys end /\ chain G l'
-  end.
-
-Lemma forallb_false {A} (f : A -> bool) l : forallb f l = false -> exists x, In x l /\ f x = false.
-Proof.
-  induction l as [|x l IH]; cbn [forallb]; [discriminate|]. destruct (f x) eqn:E; cbn [andb].
-  - intros H. destruct (IH H) as (y & Hy & Ey). exists y. split; [right; exact Hy|exact Ey].
-  - intros _. exists x. split; [left; reflexivity|exact E].
-Qed.
-
-(* a class that is not depth_ok k starts a chain of k+1 rows *)
-Lemma long_chain G : forall k c, depth_ok k G c = false -> exists l, length l = k /\ chain G (c :: l).
-Proof.
-  induction k as [|k IH]; intros c H; rewrite depth_ok_eq in H; destruct (map_get str_eqb c G) as [ys|] eqn:E; try discriminate.
-  - exists []. split; [reflexivity|]. cbn [chain]. exists ys. auto.
-  - apply forallb_false in H. destruct H as (y & Hy & Ey). destruct (IH y Ey) as (l & Hl & Hc).
-    exists (y :: l). split; [cbn [length]; lia|]. change (chain G (c :: y :: l)) with
-      (exists ys0, map_get str_eqb c G = Some ys0 /\ In y ys0 /\ chain G (y :: l)).
-    exists ys. auto.
-Qed.
-
-(* the least depth at which c is depth_ok (below d) *)
-Fixpoint least (G : graph) (d : nat) (c : str) : nat :=
-  match d with
-  | O => O
-  | S d' => if depth_ok d' G c then least G d' c else S d'
-  end.
-
-Lemma least_ok G : forall d c, depth_ok d G c = true -> depth_ok (least G d c) G c = true.
-Proof.
-  induction d as [|d IH]; intros c H; cbn [least]; [exact H|].
-  destruct (depth_ok d G c) eqn:E; [apply IH; exact E|exact H].
-Qed.
-
-Lemma least_le G : forall d c m, depth_ok m G c = true -> least G d c <= m.
-Proof.
-  induction d as [|d IH]; intros c m H; cbn [least]; [lia|].
-  destruct (depth_ok d G c) eqn:E; [apply IH; exact H|].
-  destruct (Nat.le_gt_cases m d) as [Hle|Hgt]; [|lia].
-  destruct (depth_le G m d c Hle H) as [H' _]. congruence.
-Qed.
-
-Lemma least_edge G d c ys y : depth_ok d G c = true -> map_get str_eqb c G = Some ys -> In y ys ->
-  least G d y < least G d c.
-Proof.
-  intros H E Hy. pose proof (least_ok G d c H) as Hm. rewrite depth_ok_eq, E in Hm.
-  destruct (least G d c) as [|m] eqn:El; [discriminate|]. rewrite forallb_forall in Hm.
-  pose proof (least_le G d y m (Hm y Hy)). lia.
-Qed.
-
-Lemma chain_decreasing G d : (forall c, depth_ok d G c = true) ->
-  forall l c, chain G (c :: l) -> forall x, In x l -> least G d x < least G d c.
-Proof.
-  intros Hd. induction l as [|y l IH]; intros c Hc x Hx; [destruct Hx|].
-  change (exists ys0, map_get str_eqb c G = Some ys0 /\ In y ys0 /\ chain G (y :: l)) in Hc.
-  destruct Hc as (ys & E & Hy & Hc'). pose proof (least_edge G d c ys y (Hd c) E Hy) as H1.
-  destruct Hx as [<-|Hx]; [exact H1|]. pose proof (IH y Hc' x Hx). lia.
-Qed.
-
-Lemma chain_NoDup G d : (forall c, depth_ok d G c = true) -> forall l, chain G l -> NoDup l.
-Proof.
-  intros Hd. induction l as [|c l IH]; intros Hc; [constructor|]. constructor.
-  - intros Hi. pose proof (chain_decreasing G d Hd l c Hc c Hi). lia.
-  - apply IH. destruct Hc as (ys & _ & _ & Hc'). exact Hc'.
-Qed.
-
-Lemma chain_rows G : forall l, chain G l -> incl l (map fst G).
-Proof.
-  induction l as [|c l IH]; intros Hc x Hx; [destruct Hx|]. destruct Hc as (ys & E & _ & Hc').
-  destruct Hx as [<-|Hx]; [|exact (IH Hc' x Hx)].
-  apply (map_get_Some_In str_eqb str_eqb_dec) in E. apply (in_map fst) in E. exact E.
-Qed.
-
-(* pigeonhole: on a table all of whose chains are bounded, no chain is longer than the number of rows *)
-Theorem depth_rows G d : (forall c, depth_ok d G c = true) -> forall c, depth_ok (length G) G c = true.
-Proof.
-  intros Hd c. destruct (depth_ok (length G) G c) eqn:E; [reflexivity|exfalso].
-  destruct (long_chain G _ _ E) as (l & Hl & Hc).
-  pose proof (NoDup_incl_length (chain_NoDup G d Hd _ Hc) (chain_rows G _ Hc)) as Hlen.
-  rewrite map_length in Hlen. cbn [length] in Hlen. lia.
-Qed.
-
-Lemma graph_bound_ext d D G : (forall c, cost d G c = cost D G c) -> graph_bound d G = graph_bound D G.
-Proof.
-  intros H. unfold graph_bound. generalize G at 2 4. induction G0 as [|e G0 IH]; cbn [fold_right]; [reflexivity|].
-  rewrite IH, H. reflexivity.
-Qed.
-
-(* the model's fuel for a table is the largest number of paths from a class, whatever bound d shows acyclicity *)
-Theorem walk_fuel_exact G d : hier_depth_ok d G = true ->
-  hier_depth_ok (length G) G = true /\ walk_fuel G = graph_bound d G.
-Proof.
-  intros H. pose proof (hier_depth_all d G H) as Hd. pose proof (depth_rows G d Hd) as HL. split.
-  - unfold hier_depth_ok. apply forallb_forall. intros e _. apply HL.
-  - unfold walk_fuel. apply graph_bound_ext. intros c.
-    destruct (Nat.le_gt_cases d (length G)) as [Hle|Hgt].
-    + apply (depth_le G d (length G) c Hle (Hd c)).
-    + symmetry. apply (depth_le G (length G) d c); [lia|apply HL].
+  intros Hw. split; [apply (walk_NoDup _ _ _ _ _ Hw); constructor|]. intros f'.
+  rewrite (walk_exact G _ _ _ _ Hw f'). unfold steps. cbn [length]. rewrite Nat.sub_0_r. reflexivity.
 Qed.
 
 (* ---------- Jar::get_specialized_methods with an explicit fuel ---------- *)
@@ -248,6 +114,11 @@ Definition get_specialized_f (fuel : nat) (J : jar) : res (pairs * pairs) :=
 
 Lemma get_specialized_is_f J : get_specialized J = get_specialized_f (jar_fuel J) J.
 Proof. reflexivity. Qed.
+
+Definition walks_ok (fuel : nat) (G : graph) : Prop := forall s, exists l, walk fuel G [s] [] = Ok l.
+
+Lemma walks_ok_fuel G fuel : walk_fuel G <= fuel -> walks_ok fuel G.
+Proof. intros Hf s. apply walk_total. exact Hf. Qed.
 
 Lemma compat_ok fuel cls P tb ts : walks_ok fuel P -> exists v, compat fuel cls P tb ts = Ok v.
 Proof.
@@ -300,52 +171,30 @@ Proof.
   destruct (step_ok fuel cls P C refs st e HP HC) as [st' ->]. apply IH.
 Qed.
 
-Definition hier_ok (d : nat) (J : jar) : bool :=
-  hier_depth_ok d (ix_parents J) && hier_depth_ok d (ix_children J).
-Definition fuel_bound (d : nat) (J : jar) : nat :=
-  Nat.max (graph_bound d (ix_parents J)) (graph_bound d (ix_children J)).
 
-Theorem fuel_suffices_f J d fuel : hier_ok d J = true -> fuel_bound d J <= fuel ->
-  exists r, get_specialized_f fuel J = Ok r.
+Theorem get_specialized_total_f J fuel : jar_fuel J <= fuel -> exists r, get_specialized_f fuel J = Ok r.
 Proof.
-  unfold hier_ok, fuel_bound. rewrite andb_true_iff. intros [HP HC] Hb.
-  apply loop_never_err; apply (walks_ok_bound d); auto; lia.
+  unfold jar_fuel. intros Hf. apply loop_never_err; apply walks_ok_fuel; lia.
 Qed.
 
-(* the model's fuel is exactly the bound, whatever depth d shows the hierarchy acyclic *)
-Theorem jar_fuel_exact J d : hier_ok d J = true -> jar_fuel J = fuel_bound d J.
+(* no hypothesis on the hierarchy is left: the model answers on every jar *)
+Theorem get_specialized_total J : exists b2s s2b, get_specialized J = Ok (b2s, s2b).
 Proof.
-  unfold hier_ok, jar_fuel, fuel_bound. rewrite andb_true_iff. intros [HP HC].
-  destruct (walk_fuel_exact _ d HP) as [_ ->]. destruct (walk_fuel_exact _ d HC) as [_ ->]. reflexivity.
+  rewrite get_specialized_is_f. destruct (get_specialized_total_f J (jar_fuel J) (Nat.le_refl _)) as [[b2s s2b] H].
+  exists b2s, s2b. exact H.
 Qed.
 
-Theorem fuel_suffices J d : hier_ok d J = true -> get_specialized J <> Err.
+(* the first theorem of the property without any hypothesis: on every jar the model answers, and the collected pairs are
+   exactly the bridge pairs *)
+Theorem bridge_iff_total J : exists b2s s2b, get_specialized J = Ok (b2s, s2b) /\
+  forall b s, In (b, s) b2s <-> is_bridge_pair J b s.
 Proof.
-  intros H. rewrite get_specialized_is_f.
-  destruct (fuel_suffices_f J d (jar_fuel J) H) as [r ->]; [rewrite (jar_fuel_exact J d H); apply Nat.le_refl|discriminate].
+  destruct (get_specialized_total J) as (b2s & s2b & H). exists b2s, s2b. split; [exact H|].
+  intros b s. apply (bridge_iff J b2s s2b H).
 Qed.
 
-(* and it is not generous: with less fuel than the model's, some work-list of the jar started at one of its classes fails *)
-Theorem fuel_sharp J d f : hier_ok d J = true -> f < jar_fuel J ->
-  exists c, walk f (ix_parents J) [c] [] = Err \/ walk f (ix_children J) [c] [] = Err.
-Proof.
-  intros H Hf. rewrite (jar_fuel_exact J d H) in Hf. unfold hier_ok in H. apply andb_true_iff in H. destruct H as [HP HC].
-  unfold fuel_bound in Hf.
-  assert (Hex : forall G, hier_depth_ok d G = true -> f < graph_bound d G -> exists c, walk f G [c] [] = Err).
-  { intros G HG Hlt. assert (Hc : exists c, f < cost d G c).
-    { unfold graph_bound in Hlt. revert Hlt. generalize G at 2. induction G0 as [|e G0 IH]; cbn [fold_right]; intros Hlt.
-      - exists []. pose proof (cost_pos d G []). lia.
-      - destruct (Nat.max_spec (cost d G (fst e)) (fold_right (fun e0 m => Nat.max (cost d G (fst e0)) m) 1 G0)) as [[_ Hm]|[_ Hm]]; rewrite Hm in Hlt.
-        + apply IH. exact Hlt.
-        + exists (fst e). exact Hlt. }
-    destruct Hc as (c & Hc). exists c. destruct (walk f G [c] []) as [r|] eqn:E; [|reflexivity]. exfalso.
-    assert (Hw : exists r, walk f G [c] [] = Ok r) by (exists r; exact E).
-    apply (walk_exact G d f [c] []) in Hw; [|intros c' _; apply hier_depth_all; exact HG].
-    rewrite total_cons, total_nil in Hw. lia. }
-  destruct (Nat.max_spec (graph_bound d (ix_parents J)) (graph_bound d (ix_children J))) as [[_ Hm]|[_ Hm]]; rewrite Hm in Hf.
-  - destruct (Hex _ HC Hf) as (c & Hc). exists c. right. exact Hc.
-  - destruct (Hex _ HP Hf) as (c & Hc). exists c. left. exact Hc.
-Qed.
+Theorem fuel_suffices J : get_specialized J <> Err.
+Proof. destruct (get_specialized_total J) as (b2s & s2b & ->). discriminate. Qed.
 
 (* ---------- more fuel never changes the answer of the whole computation ---------- *)
 Lemma compat_mono f k cls P tb ts v : compat f cls P tb ts = Ok v -> compat (f + k) cls P tb ts = Ok v.
@@ -405,110 +254,242 @@ Proof.
   - rewrite fold_step_Err in H. discriminate.
 Qed.
 
-(* with enough fuel there is one answer, the answer of the terminating Rust loops *)
-Theorem fuel_irrelevant J d f1 f2 : hier_ok d J = true -> fuel_bound d J <= f1 -> fuel_bound d J <= f2 ->
+
+(* with enough fuel there is one answer, the answer of the Rust loops *)
+Theorem fuel_irrelevant J f1 f2 : jar_fuel J <= f1 -> jar_fuel J <= f2 ->
   exists r, get_specialized_f f1 J = Ok r /\ get_specialized_f f2 J = Ok r.
 Proof.
-  intros H H1 H2. destruct (fuel_suffices_f J d (fuel_bound d J) H (Nat.le_refl _)) as [r Hr]. exists r.
-  replace f1 with (fuel_bound d J + (f1 - fuel_bound d J)) by lia.
-  replace f2 with (fuel_bound d J + (f2 - fuel_bound d J)) by lia.
+  intros H1 H2. destruct (get_specialized_total_f J (jar_fuel J) (Nat.le_refl _)) as [r Hr]. exists r.
+  replace f1 with (jar_fuel J + (f1 - jar_fuel J)) by lia.
+  replace f2 with (jar_fuel J + (f2 - jar_fuel J)) by lia.
   split; apply get_specialized_mono; exact Hr.
 Qed.
 
-(* ---------- acyclic = some rank decreases along every edge (the formulation of C06) ---------- *)
-(* [ranked J rk D]: every class of the jar has rank below D and each of its super types (super
-   class other than java/lang/Object, interfaces) has a smaller rank *)
-Definition ranked (J : jar) (rk : str -> nat) (D : nat) : bool :=
-  forallb (fun c => Nat.ltb (rk (jc_name c)) D
-                    && forallb (fun p => Nat.ltb (rk p) (rk (jc_name c))) (edges_of c)) J.
+(* ---------- the fuel is linear in the jar: one more than the number of super-type edges ---------- *)
+Definition jar_edges (J : jar) : nat := list_sum (map (fun c => length (edges_of c)) J).
 
-Lemma ranked_parent J rk D : ranked J rk D = true -> forall c p, parent J c p -> rk p < rk c /\ rk c < D.
+Lemma set_add_length x (l : list str) : length (set_add str_eqb x l) <= S (length l).
+Proof. unfold set_add. destruct (set_mem str_eqb x l); [lia|]. rewrite app_length. cbn [length]. lia. Qed.
+
+Lemma vals_upd k x G : length (vals (map_upd str_eqb k [] (set_add str_eqb x) G)) <= S (length (vals G)).
 Proof.
-  unfold ranked. rewrite forallb_forall. intros H c p (jc & Hin & <- & Hp).
-  specialize (H jc Hin). apply andb_true_iff in H. destruct H as [H1 H2].
-  rewrite forallb_forall in H2. specialize (H2 p Hp). apply Nat.ltb_lt in H1, H2. lia.
+  induction G as [|[k' v'] G IH]; cbn [map_upd].
+  - unfold vals. cbn [flat_map snd]. rewrite app_nil_r. apply set_add_length.
+  - destruct (str_eqb k k'); unfold vals in *; cbn [flat_map snd]; rewrite !app_length.
+    + pose proof (set_add_length x v'). lia.
+    + lia.
 Qed.
 
-Lemma rank_depth (G : graph) (rk : str -> nat) :
-  (forall c ys y, map_get str_eqb c G = Some ys -> In y ys -> rk y < rk c) ->
-  forall n c, rk c < n -> depth_ok n G c = true.
+Lemma store_parents_vals c : forall G, length (vals (store_parents G c)) <= length (edges_of c) + length (vals G).
 Proof.
-  intros Hr. induction n as [|n IH]; intros c Hc; [lia|].
-  rewrite depth_ok_eq. destruct (map_get str_eqb c G) as [ys|] eqn:E; [|reflexivity].
-  apply forallb_forall. intros y Hy. apply IH. specialize (Hr c ys y E Hy). lia.
+  unfold store_parents. induction (edges_of c) as [|p es IH]; intros G; cbn [fold_left length]; [lia|].
+  pose proof (IH (map_upd str_eqb (jc_name c) [] (set_add str_eqb p) G)). pose proof (vals_upd (jc_name c) p G). lia.
 Qed.
 
-Lemma ranked_table (R : str -> str -> Prop) G (rk : str -> nat) D :
-  graph_inv R G -> (forall c y, R c y -> rk y < rk c /\ rk y < D) -> hier_depth_ok (S D) G = true.
+Lemma store_children_vals c : forall G, length (vals (store_children G c)) <= length (edges_of c) + length (vals G).
 Proof.
-  intros Hg Hr. unfold hier_depth_ok. apply forallb_forall. intros e He.
-  rewrite depth_ok_eq. destruct (map_get str_eqb (fst e) G) as [ys|] eqn:E; [|reflexivity].
-  apply forallb_forall. intros y Hy. apply (rank_depth G rk).
-  - intros c zs z Ez Hz. pose proof (Hg c) as Hc. rewrite Ez in Hc. apply (Hr c z). apply Hc. exact Hz.
-  - pose proof (Hg (fst e)) as Hc. rewrite E in Hc. apply (Hr (fst e) y). apply Hc. exact Hy.
+  unfold store_children. induction (edges_of c) as [|p es IH]; intros G; cbn [fold_left length]; [lia|].
+  pose proof (IH (map_upd str_eqb p [] (set_add str_eqb (jc_name c)) G)). pose proof (vals_upd p (jc_name c) G). lia.
 Qed.
 
-Theorem ranked_hier_ok J rk D : ranked J rk D = true -> hier_ok (S D) J = true.
+Lemma fold_store_vals (store : graph -> jclass -> graph) :
+  (forall c G, length (vals (store G c)) <= length (edges_of c) + length (vals G)) ->
+  forall J G, length (vals (fold_left store J G)) <= jar_edges J + length (vals G).
 Proof.
-  intros H. pose proof (ranked_parent J rk D H) as Hp. unfold hier_ok. apply andb_true_iff. split.
-  - apply (ranked_table (parent J) _ rk D (ix_parents_spec J)).
-    intros c y Hcy. destruct (Hp c y Hcy). lia.
-  - apply (ranked_table (fun p c => parent J c p) _ (fun x => D - rk x) D (ix_children_spec J)).
-    intros p c Hcp. destruct (Hp c p Hcp). lia.
+  intros Hs. induction J as [|c J IH]; intros G; cbn [fold_left]; [unfold jar_edges; simpl; lia|].
+  pose proof (IH (store G c)). pose proof (Hs c G). unfold jar_edges in *. cbn [map]. simpl list_sum. lia.
 Qed.
 
-Theorem fuel_suffices_ranked J rk D : ranked J rk D = true -> get_specialized J <> Err.
-Proof. intros H. apply (fuel_suffices J (S D)). apply (ranked_hier_ok J rk D H). Qed.
-
-(* ---------- a cheap sufficient condition: bounded out-degree x depth ---------- *)
-(* 1 + b + b^2 + ... + b^d *)
-Fixpoint geo (b d : nat) : nat := match d with O => 1 | S d' => S (b * geo b d') end.
-Definition degree_le (b : nat) (G : graph) : bool := forallb (fun e => Nat.leb (length (snd e)) b) G.
-
-Lemma list_sum_le_const (f : str -> nat) m l : (forall y, In y l -> f y <= m) -> list_sum (map f l) <= length l * m.
+Theorem jar_fuel_linear J : jar_fuel J <= S (jar_edges J).
 Proof.
-  induction l as [|y l IH]; intros H; [simpl; lia|]. rewrite map_cons. change (list_sum (f y :: map f l)) with (f y + list_sum (map f l)). cbn [length Nat.mul].
-  pose proof (H y (or_introl eq_refl)). assert (list_sum (map f l) <= length l * m) by (apply IH; intros z Hz; apply H; right; exact Hz). lia.
+  unfold jar_fuel, walk_fuel. fold (vals (ix_parents J)). fold (vals (ix_children J)).
+  pose proof (fold_store_vals store_parents (fun c G => store_parents_vals c G) J []) as HP.
+  pose proof (fold_store_vals store_children (fun c G => store_children_vals c G) J []) as HC.
+  unfold ix_parents, ix_children. cbn [vals flat_map length] in HP, HC. lia.
 Qed.
 
-Lemma cost_le_geo b G : degree_le b G = true -> forall d c, cost d G c <= geo b d.
+(* ================================================================== *)
+(* Part 2: the loops before the fix — `for y in G[x] { queue.push(y); out.push(y) }`, no visited set *)
+Fixpoint walk_nv (fuel : nat) (G : graph) (stack : list str) (out : list str) : res (list str) :=
+  match stack with
+  | [] => Ok out
+  | c :: q =>
+      match fuel with
+      | O => Err
+      | S f =>
+          match map_get str_eqb c G with
+          | Some ys => walk_nv f G (rev ys ++ q) (out ++ ys)
+          | None => walk_nv f G q out
+          end
+      end
+  end.
+
+(* the number of paths of the table that start at c (the empty path included), cut off below depth d *)
+Fixpoint cost (d : nat) (G : graph) (c : str) {struct d} : nat :=
+  match map_get str_eqb c G with
+  | None => 1%nat
+  | Some ys => match d with
+               | O => 1%nat
+               | S d' => S (list_sum (map (cost d' G) ys))
+               end
+  end.
+
+(* ---------- depth and cost of a class in a hierarchy table ---------- *)
+(* every chain of edges starting at c has at most d edges (a class without an entry has none) *)
+Fixpoint depth_ok (d : nat) (G : graph) (c : str) {struct d} : bool :=
+  match map_get str_eqb c G with
+  | None => true
+  | Some ys => match d with
+               | O => false
+               | S d' => forallb (depth_ok d' G) ys
+               end
+  end.
+
+Definition total (d : nat) (G : graph) (stack : list str) : nat := list_sum (map (cost d G) stack).
+
+Lemma depth_ok_eq d G c :
+  depth_ok d G c = match map_get str_eqb c G with
+                   | None => true
+                   | Some ys => match d with O => false | S d' => forallb (depth_ok d' G) ys end
+                   end.
+Proof. destruct d; reflexivity. Qed.
+
+Lemma cost_eq d G c :
+  cost d G c = match map_get str_eqb c G with
+               | None => 1
+               | Some ys => match d with O => 1 | S d' => S (list_sum (map (cost d' G) ys)) end
+               end.
+Proof. destruct d; reflexivity. Qed.
+
+Lemma cost_pos d G c : 1 <= cost d G c.
+Proof. rewrite cost_eq. destruct (map_get str_eqb c G); [destruct d|]; lia. Qed.
+
+(* a larger depth bound changes neither the verdict nor the count *)
+Lemma depth_le G : forall d D c, d <= D -> depth_ok d G c = true ->
+  depth_ok D G c = true /\ cost D G c = cost d G c.
 Proof.
-  intros Hb. induction d as [|d IH]; intros c; rewrite cost_eq; destruct (map_get str_eqb c G) as [ys|] eqn:E; cbn [geo]; try lia.
-  apply (map_get_Some_In str_eqb str_eqb_dec) in E. unfold degree_le in Hb. rewrite forallb_forall in Hb.
-  specialize (Hb (c, ys) E). cbn [snd] in Hb. apply Nat.leb_le in Hb.
-  pose proof (list_sum_le_const (cost d G) (geo b d) ys (fun y _ => IH y)) as Hs.
-  assert (length ys * geo b d <= b * geo b d) by (apply Nat.mul_le_mono_r; exact Hb). lia.
+  induction d as [|d IH]; intros D c Hle H; rewrite depth_ok_eq in H.
+  - rewrite (depth_ok_eq D), (cost_eq D), (cost_eq 0). destruct (map_get str_eqb c G) as [ys|]; [discriminate|auto].
+  - rewrite (depth_ok_eq D), (cost_eq D), (cost_eq (S d)). destruct (map_get str_eqb c G) as [ys|]; [|auto].
+    destruct D as [|D]; [lia|]. rewrite forallb_forall in H. split.
+    + apply forallb_forall. intros y Hy. apply (IH D y); [lia|auto].
+    + f_equal. f_equal. apply map_ext_in. intros y Hy. apply (IH D y); [lia|auto].
 Qed.
 
-Lemma fold_max_le {A} (f : A -> nat) m l : 1 <= m -> (forall x, In x l -> f x <= m) ->
-  fold_right (fun e acc => Nat.max (f e) acc) 1 l <= m.
+Lemma list_sum_rev l : list_sum (rev l) = list_sum l.
 Proof.
-  intros H1. induction l as [|x l IH]; intros H; cbn [fold_right]; [exact H1|].
-  pose proof (H x (or_introl eq_refl)). assert (fold_right (fun e acc => Nat.max (f e) acc) 1 l <= m) by (apply IH; intros z Hz; apply H; right; exact Hz). lia.
+  induction l as [|x l IH]; [reflexivity|]. cbn [rev]. rewrite list_sum_app, IH. simpl. lia.
 Qed.
 
-Lemma graph_bound_le_geo b d G : degree_le b G = true -> graph_bound d G <= geo b d.
+(* ---------- the work-list takes exactly [total] steps ---------- *)
+Lemma total_nil d G : total d G [] = 0.
+Proof. reflexivity. Qed.
+Lemma total_cons d G c q : total d G (c :: q) = cost d G c + total d G q.
+Proof. reflexivity. Qed.
+Lemma total_app d G l1 l2 : total d G (l1 ++ l2) = total d G l1 + total d G l2.
+Proof. unfold total. rewrite map_app, list_sum_app. reflexivity. Qed.
+Lemma total_rev d G l : total d G (rev l) = total d G l.
+Proof. unfold total. rewrite map_rev, list_sum_rev. reflexivity. Qed.
+
+Theorem walk_nv_exact G d : forall fuel stack out,
+  (forall c, In c stack -> depth_ok d G c = true) ->
+  ((exists r, walk_nv fuel G stack out = Ok r) <-> total d G stack <= fuel).
 Proof.
-  intros Hb. unfold graph_bound. apply fold_max_le.
-  - destruct d; cbn [geo]; lia.
-  - intros e _. apply (cost_le_geo b G Hb).
+  induction fuel as [|f IH]; intros stack out Hd.
+  - destruct stack as [|c q]; cbn [walk_nv].
+    + rewrite total_nil. split; [lia|eauto].
+    + rewrite total_cons. pose proof (cost_pos d G c). split; [intros (r & Hr); discriminate|lia].
+  - destruct stack as [|c q]; cbn [walk_nv].
+    + rewrite total_nil. split; [lia|eauto].
+    + assert (Hq : forall c', In c' q -> depth_ok d G c' = true) by (intros c' Hc'; apply Hd; right; exact Hc').
+      pose proof (Hd c (or_introl eq_refl)) as Hc. rewrite depth_ok_eq in Hc.
+      rewrite total_cons, (cost_eq d G c).
+      destruct (map_get str_eqb c G) as [ys|] eqn:E.
+      * destruct d as [|d']; [discriminate|]. rewrite forallb_forall in Hc.
+        assert (Hys : forall y, In y ys -> depth_ok (S d') G y = true /\ cost (S d') G y = cost d' G y).
+        { intros y Hy. apply (depth_le G d' (S d') y); [lia|auto]. }
+        rewrite (IH (rev ys ++ q) (out ++ ys)).
+        2:{ intros c' Hc'. apply in_app_iff in Hc'. destruct Hc' as [Hc'|Hc']; [|auto].
+            apply in_rev in Hc'. apply Hys. exact Hc'. }
+        rewrite total_app, total_rev. unfold total at 1.
+        rewrite (map_ext_in (cost (S d') G) (cost d' G) ys) by (intros y Hy; apply Hys; exact Hy).
+        lia.
+      * rewrite (IH q out Hq). lia.
 Qed.
 
-(* at most b super types per class and at most b direct subtypes per class, chains of at most d
-   edges: no work-list of the jar takes more than 1 + b + ... + b^d steps *)
-Theorem fuel_degree_bound J b d :
-  hier_ok d J = true -> degree_le b (ix_parents J) = true -> degree_le b (ix_children J) = true ->
-  jar_fuel J <= geo b d.
+
+(* where it finished, the old loop listed the transitive closure too (with repetitions) *)
+Lemma walk_nv_spec R G : graph_inv R G -> forall fuel stack out r,
+  walk_nv fuel G stack out = Ok r ->
+  forall x, In x r <-> In x out \/ exists c, In c stack /\ clos_trans_1n str R c x.
 Proof.
-  intros H HP HC. rewrite (jar_fuel_exact J d H). unfold fuel_bound.
-  pose proof (graph_bound_le_geo b d _ HP). pose proof (graph_bound_le_geo b d _ HC). lia.
+  intros Hg fuel. induction fuel as [|f IH]; intros stack out r Hw x.
+  - destruct stack as [|c q]; cbn [walk_nv] in Hw; [|discriminate]. injection Hw as ->.
+    split; [auto|intros [Hi|(c & [] & _)]; exact Hi].
+  - destruct stack as [|c q]; cbn [walk_nv] in Hw.
+    + injection Hw as ->. split; [auto|intros [Hi|(c & [] & _)]; exact Hi].
+    + pose proof (Hg c) as Hc. destruct (map_get str_eqb c G) as [ys|].
+      * rewrite (IH _ _ _ Hw x). rewrite in_app_iff. split.
+        -- intros [[Hi|Hi]|(c' & Hc' & Ht)].
+           ++ left. exact Hi.
+           ++ right. exists c. split; [left; reflexivity|]. apply t1n_step, Hc, Hi.
+           ++ apply in_app_iff in Hc'. destruct Hc' as [Hc'|Hc'].
+              ** right. exists c. split; [left; reflexivity|]. apply (t1n_trans _ _ _ c'); [|exact Ht].
+                 apply Hc. apply in_rev. exact Hc'.
+              ** right. exists c'. split; [right; exact Hc'|exact Ht].
+        -- intros [Hi|(c' & [<-|Hc'] & Ht)].
+           ++ left. left. exact Hi.
+           ++ apply t1n_unfold in Ht. destruct Ht as [Hr|(y & Hr & Ht)].
+              ** left. right. apply Hc. exact Hr.
+              ** right. exists y. split; [|exact Ht]. apply in_app_iff. left. apply in_rev. rewrite rev_involutive. apply Hc. exact Hr.
+           ++ right. exists c'. split; [|exact Ht]. apply in_app_iff. right. exact Hc'.
+      * rewrite (IH _ _ _ Hw x). split.
+        -- intros [Hi|(c' & Hc' & Ht)]; [left; exact Hi|right; exists c'; split; [right; exact Hc'|exact Ht]].
+        -- intros [Hi|(c' & [<-|Hc'] & Ht)]; [left; exact Hi| |right; exists c'; split; assumption].
+           exfalso. apply t1n_unfold in Ht. destruct Ht as [Hr|(y & Hr & _)]; exact (Hc _ Hr).
 Qed.
 
-(* ---------- non-vacuity ---------- *)
-(* a diamond: D extends B implements C; B extends A; C extends A.  Five paths start at D
-   (D, D-B, D-B-A, D-C, D-C-A) although only four classes are reachable: A is expanded twice, and
-   listed twice in the output.  D has a synthetic method without the bridge flag whose only callee
-   takes a D where it takes an A: deciding that it is a bridge runs the ancestor work-list from D. *)
+
+(* the fix changes no answer that existed: both loops list the same classes *)
+Theorem visited_set_conservative R G : graph_inv R G -> forall f1 f2 c r1 r2,
+  walk_nv f1 G [c] [] = Ok r1 -> walk f2 G [c] [] = Ok r2 -> forall x, In x r1 <-> In x r2.
+Proof.
+  intros Hg f1 f2 c r1 r2 H1 H2 x.
+  rewrite (walk_nv_spec R G Hg _ _ _ _ H1 x), (walk_spec R G Hg _ _ _ _ H2 (closed_inv_start R c) x). reflexivity.
+Qed.
+
+(* a class on a cycle on the stack: the old loop has no answer, whatever the fuel *)
+Lemma t1n_snoc (R : str -> str -> Prop) x y z : clos_trans_1n str R x y -> R y z -> clos_trans_1n str R x z.
+Proof.
+  intros H. induction H as [x y Hr|x w y Hr Ht IH]; intros Hz.
+  - apply (t1n_trans _ _ _ y); [exact Hr|apply t1n_step; exact Hz].
+  - apply (t1n_trans _ _ _ w); [exact Hr|apply IH; exact Hz].
+Qed.
+
+Lemma cycle_next (R : str -> str -> Prop) x : clos_trans_1n str R x x -> exists y, R x y /\ clos_trans_1n str R y y.
+Proof.
+  intros H. apply t1n_unfold in H. destruct H as [Hr|(y & Hr & Ht)].
+  - exists x. split; [exact Hr|apply t1n_step; exact Hr].
+  - exists y. split; [exact Hr|apply (t1n_snoc R y x y Ht Hr)].
+Qed.
+
+Theorem walk_nv_diverges R G : graph_inv R G -> forall fuel stack out,
+  (exists x, In x stack /\ clos_trans_1n str R x x) -> walk_nv fuel G stack out = Err.
+Proof.
+  intros Hg. induction fuel as [|f IH]; intros stack out (x & Hx & Hc); destruct stack as [|c q]; try (destruct Hx; fail).
+  - reflexivity.
+  - cbn [walk_nv]. pose proof (Hg c) as Hgc. destruct Hx as [<-|Hx].
+    + destruct (cycle_next R c Hc) as (y & Hr & Hy). destruct (map_get str_eqb c G) as [ys|].
+      * apply IH. exists y. split; [|exact Hy]. apply in_app_iff. left. apply in_rev. rewrite rev_involutive. apply Hgc. exact Hr.
+      * exfalso. exact (Hgc y Hr).
+    + destruct (map_get str_eqb c G) as [ys|]; apply IH; exists x; (split; [|exact Hc]); [apply in_app_iff; right; exact Hx|exact Hx].
+Qed.
+
+(* ================================================================== *)
+(* non-vacuity and the before / after of the fix *)
+(* a diamond: D extends B implements C; B extends A; C extends A.  Five paths start at D although only three
+   classes are above it.  D has a synthetic method without the bridge flag whose only callee takes a D where it takes
+   an A: deciding that it is a bridge runs the ancestor work-list from D. *)
 Definition n_A : str := [65]%N.  Definition n_B : str := [66]%N.  Definition n_C : str := [67]%N.  Definition n_D : str := [68]%N.
 Definition d_A : str := [40;76;65;59;41;86]%N.   (* (LA;)V *)
 Definition d_D : str := [40;76;68;59;41;86]%N.   (* (LD;)V *)
@@ -516,14 +497,11 @@ Definition n_m : str := [109]%N.
 Definition dia_jar : jar :=
   [mkJC n_D (Some n_B) [n_C]
      [mkJM n_m d_D acc_plain (Some []);
-      mkJM n_m d_A (mkAcc false false false false true) (Some [(n_D, (n_m, d_D))])];
+      mkJM n_m d_A (mkAcc false false false false true) (Some [IOther; IVirtual (n_D, (n_m, d_D)); IOther])];
    mkJC n_B (Some n_A) [] []; mkJC n_C (Some n_A) [] []; mkJC n_A (Some s_object) [] []].
-Definition dia_rank (c : str) : nat :=
-  if str_eqb c n_D then 2 else if str_eqb c n_B then 1 else if str_eqb c n_C then 1 else 0.
 
-(* k diamonds on top of each other: t_i extends l_i implements r_i; l_i, r_i extend t_(i+1).
-   2^(k+2) - 3 paths start at t_0 while the table has 4k edges: for k = 9 a quadratic fuel
-   (4k+2)^2 = 1444 is below the 2045 steps the (terminating) Rust loop takes; the model's fuel is the path count. *)
+(* k diamonds on top of each other: t_i extends l_i implements r_i; l_i, r_i extend t_(i+1): 3k+1 classes, 4k edges,
+   2^(k+2) - 3 paths from t_0 *)
 Definition nm (c : N) (i : nat) : str := [c; (48 + N.of_nat i)%N].
 Definition d_of (n : str) : str := [40; 76]%N ++ n ++ [59; 41; 86]%N.
 Definition tower (k : nat) : jar :=
@@ -531,28 +509,57 @@ Definition tower (k : nat) : jar :=
     [mkJC (nm 116%N i) (Some (nm 108%N i)) [nm 114%N i]
        (match i with
         | O => [mkJM n_m (d_of (nm 116%N 0)) acc_plain (Some []);
-                mkJM n_m (d_of (nm 116%N k)) (mkAcc false false false false true) (Some [(nm 116%N 0, (n_m, d_of (nm 116%N 0)))])]
+                mkJM n_m (d_of (nm 116%N k)) (mkAcc false false false false true) (Some [IOther; IVirtual (nm 116%N 0, (n_m, d_of (nm 116%N 0))); IOther])]
         | _ => []
         end);
      mkJC (nm 108%N i) (Some (nm 116%N (S i))) [] [];
      mkJC (nm 114%N i) (Some (nm 116%N (S i))) [] []]) (seq 0 k)
   ++ [mkJC (nm 116%N k) (Some s_object) [] []].
 
+(* cyclic inheritance: A extends B, B extends A (and a class E whose unflagged synthetic m(LD;)V forwards to m(LA;)V) *)
+Definition cyc_jar : jar :=
+  [mkJC n_A (Some n_B) [] []; mkJC n_B (Some n_A) [] []; mkJC n_D (Some s_object) [] [];
+   mkJC [69]%N (Some s_object) []
+     [mkJM n_m d_A acc_plain (Some []);
+      mkJM n_m d_D (mkAcc false false false false true) (Some [IOther; IVirtual ([69]%N, (n_m, d_A)); IOther]);
+      mkJM [103]%N (d_of n_B) (mkAcc false false false false true) (Some [IOther; IVirtual ([69]%N, (n_m, d_A)); IOther])]].
+
 Definition fuel_examples : Prop :=
-  (* the diamond is inside the hypotheses, by rank and by depth *)
-  ranked dia_jar dia_rank 3 = true /\ hier_ok 2 dia_jar = true
-  /\ fuel_bound 2 dia_jar = 5 /\ jar_fuel dia_jar = 5
-  (* paths, not classes: 5 steps, A twice *)
-  /\ walk 5 (ix_parents dia_jar) [n_D] [] = Ok [n_B; n_C; n_A; n_A]
-  /\ walk 4 (ix_parents dia_jar) [n_D] [] = Err
+  (* the diamond: the old loop walked 5 paths and listed A twice; now 4 pops, every class once *)
+  walk_nv 5 (ix_parents dia_jar) [n_D] [] = Ok [n_B; n_C; n_A; n_A]
+  /\ walk_nv 4 (ix_parents dia_jar) [n_D] [] = Err
+  /\ walk 4 (ix_parents dia_jar) [n_D] [] = Ok [n_B; n_C; n_A]
+  /\ walk 3 (ix_parents dia_jar) [n_D] [] = Err
+  /\ jar_fuel dia_jar = 5
   /\ get_specialized dia_jar = Ok ([((n_D, (n_m, d_A)), (n_D, (n_m, d_D)))], [((n_D, (n_m, d_D)), (n_D, (n_m, d_A)))])
-  /\ get_specialized_f 4 dia_jar = Err
-  (* no polynomial in the size of the tables would do: an acyclic tower of nine diamonds (28 classes, 36 edges) *)
-  /\ hier_ok 18 (tower 9) = true /\ fuel_bound 18 (tower 9) = 2045 /\ jar_fuel (tower 9) = 2045
-  /\ get_specialized_f 1444 (tower 9) = Err
+  (* stacked diamonds: 2045 pops of the old loop for 28 classes (1444 = (4k+2)^2 are not enough), 28 pops now *)
+  /\ cost 18 (ix_parents (tower 9)) (nm 116%N 0) = 2045
+  /\ walk_nv 1444 (ix_parents (tower 9)) [nm 116%N 0] [] = Err
+  /\ (exists r, walk 28 (ix_parents (tower 9)) [nm 116%N 0] [] = Ok r /\ length r = 27)
+  /\ walk 27 (ix_parents (tower 9)) [nm 116%N 0] [] = Err
+  /\ jar_fuel (tower 9) = 37
   /\ get_specialized (tower 9)
      = Ok ([((nm 116%N 0, (n_m, d_of (nm 116%N 9))), (nm 116%N 0, (n_m, d_of (nm 116%N 0))))],
-           [((nm 116%N 0, (n_m, d_of (nm 116%N 0))), (nm 116%N 0, (n_m, d_of (nm 116%N 9))))]).
+           [((nm 116%N 0, (n_m, d_of (nm 116%N 0))), (nm 116%N 0, (n_m, d_of (nm 116%N 9))))])
+  (* a tower the old loop could not walk (2^42 paths) *)
+  /\ (exists r, get_specialized (tower 40) = Ok r /\ length (fst r) = 1)
+  (* cyclic inheritance: the old loop has no answer, the new one lists the cycle once: A is its own ancestor;
+     B is an ancestor of A (the synthetic g(LB;)V is a bridge of m(LA;)V), D is not *)
+  /\ (forall fuel, walk_nv fuel (ix_parents cyc_jar) [n_A] [] = Err)
+  /\ walk 3 (ix_parents cyc_jar) [n_A] [] = Ok [n_B; n_A]
+  /\ walk 2 (ix_parents cyc_jar) [n_A] [] = Err
+  /\ get_specialized cyc_jar = Ok ([(([69]%N, ([103]%N, d_of n_B)), ([69]%N, (n_m, d_A)))], [(([69]%N, (n_m, d_A)), ([69]%N, ([103]%N, d_of n_B)))]).
 
 Lemma fuel_examples_hold : fuel_examples.
-Proof. unfold fuel_examples. repeat split; vm_compute; reflexivity. Qed.
+Proof.
+  unfold fuel_examples.
+  assert (Hcyc : forall fuel, walk_nv fuel (ix_parents cyc_jar) [n_A] [] = Err).
+  { intros fuel. apply (walk_nv_diverges (parent cyc_jar) _ (ix_parents_spec cyc_jar)).
+    exists n_A. split; [left; reflexivity|].
+    apply (t1n_trans _ _ _ n_B); [|apply t1n_step].
+    - exists (mkJC n_A (Some n_B) [] []). split; [left; reflexivity|]. split; [reflexivity|]. left. reflexivity.
+    - exists (mkJC n_B (Some n_A) [] []). split; [right; left; reflexivity|]. split; [reflexivity|]. left. reflexivity. }
+  repeat match goal with |- _ /\ _ => split end; try exact Hcyc; try (vm_compute; reflexivity).
+  - eexists. split; vm_compute; reflexivity.
+  - eexists. split; vm_compute; reflexivity.
+Qed.
